@@ -176,7 +176,7 @@ func modelUse(kind byte, src []row) []row {
 		return reduceRows(out)
 	case 'D':
 		return reduceRows(src)
-	case 'A', 'B', 'Q', 'U':
+	case 'A', 'B', 'O', 'Q', 'U':
 		return src // a redistribution keeps the multiset of rows
 	case 'J', 'C':
 		groups := map[int][]int{}
@@ -338,6 +338,9 @@ func (w *world) cond(i int) string {
 	if w.badDirect {
 		c = append(c, "after-failed-direct")
 	}
+	if len(w.directs[i]) > 0 {
+		c = append(c, "after-direct-redistribution")
+	}
 	if len(c) == 0 {
 		return "intact"
 	}
@@ -394,9 +397,9 @@ func (w *world) runSrc(ctx context.Context, tag int) (*exec.Result, error) {
 
 var opNames = map[byte]string{'P': "pipelined", 'H': "shuffle", 'D': "direct-reduce",
 	'A': "direct-reshard-2", 'B': "direct-reshard-3", 'Q': "direct-repartition-k", 'U': "direct-repartition-2k+1",
-	'J': "cogroup-of-reshard-and-repartition", 'C': "cogroup-of-reduce-and-result"}
+	'O': "direct-reshard-1", 'J': "cogroup-of-reshard-and-repartition", 'C': "cogroup-of-reduce-and-result"}
 
-func isDirect(c byte) bool { return strings.IndexByte("DABQUJC", c) >= 0 }
+func isDirect(c byte) bool { return strings.IndexByte("DABOQUJC", c) >= 0 }
 
 // isJoin: ops whose single Func re-shuffles the result twice.
 func isJoin(c byte) bool { return c == 'J' || c == 'C' }
@@ -411,7 +414,7 @@ func (w *world) step(ctx context.Context, opi int) bool {
 	}
 	// outcome of the op, tagged with what happened to its operand before
 	tag := ""
-	if strings.IndexByte("SPHDXABQUJC", op[0]) >= 0 {
+	if strings.IndexByte("SPHDXABOQUJC", op[0]) >= 0 {
 		tag = "[" + w.cond(idx) + "]"
 	}
 	out := func(s string) { w.rec.Outcomes = append(w.rec.Outcomes, op+tag+":"+s) }
@@ -476,7 +479,7 @@ func (w *world) step(ctx context.Context, opi int) bool {
 				mech(fmt.Sprintf("scan/gone/error-after-%d-rows", len(rows)))
 			}
 		}
-	case 'P', 'H', 'D', 'A', 'B', 'Q', 'U', 'J', 'C':
+	case 'P', 'H', 'D', 'A', 'B', 'O', 'Q', 'U', 'J', 'C':
 		src, _ := modelSrc(w.prog, idx)
 		want := sorted(fmtRows(modelUse(op[0], src)))
 		cond := w.cond(idx)
@@ -494,6 +497,8 @@ func (w *world) step(ctx context.Context, opi int) bool {
 			g, args = gReshard, append(args, 2)
 		case 'B':
 			g, args = gReshard, append(args, 3)
+		case 'O':
+			g, args = gReshard, append(args, 1)
 		case 'Q':
 			g, args = gRepart, append(args, 1, 0)
 		case 'U':
@@ -896,6 +901,38 @@ func enumerateC(kind string, length int) [][]string {
 	return out
 }
 
+// enumerateD lists the histories of exactly the given length of space D: R, then one
+// direct redistribution of r0 (D A B O Q U J C; O = Reshard(r,1), a consumer of ONE
+// shard), then a word over P0 H0 X0 O0 (and K0 on the cluster) that contains at
+// least one P0 or H0: every direct op followed by the pipelined and the shuffling
+// consumer, with and without a Discard / Kill / 1-shard Reshard in between.
+func enumerateD(kind string, length int) [][]string {
+	first := []string{"D0", "A0", "B0", "O0", "Q0", "U0", "J0", "C0"}
+	alpha := []string{"P0", "H0", "X0", "O0"}
+	if kind == "vsys" {
+		alpha = append(alpha, "K0")
+	}
+	var out [][]string
+	var rec func(h []string, use bool)
+	rec = func(h []string, use bool) {
+		if len(h) == length {
+			if use {
+				out = append(out, append([]string{}, h...))
+			}
+			return
+		}
+		for _, o := range alpha {
+			rec(append(h, o), use || o == "P0" || o == "H0")
+		}
+	}
+	if length >= 3 {
+		for _, f := range first {
+			rec([]string{"R", f}, false)
+		}
+	}
+	return out
+}
+
 // runBatch executes jobs in child processes (a new child after a hang or crash)
 // and returns one record per job.
 func runBatch(self string, jobs []job) []*histRec {
@@ -1076,7 +1113,7 @@ func main() {
 			}
 			return depth - 1
 		}
-		if prog == "sh" {
+		if prog == "sh" || prog == "s1" {
 			return depth - 1
 		}
 		return depth
@@ -1106,8 +1143,11 @@ func main() {
 	} else {
 		for l := 1; l <= depth; l++ {
 			for _, kind := range []string{"local", "vsys"} {
-				for _, space := range []string{"A", "B", "C"} {
+				for _, space := range []string{"A", "B", "C", "D"} {
 					hs := enumerate(kind, l)
+					if space == "D" {
+						hs = enumerateD(kind, l)
+					}
 					if space == "B" {
 						hs = enumerateB(kind, l)
 					} else if space == "C" {
@@ -1165,6 +1205,8 @@ func main() {
 	perSpace := map[string]int{}
 	var transitions, executed int64
 	var maxMs int64
+	var slowest string
+	nSlow := 0
 	cands := map[string][]*histRec{} // signature -> histories (simplest first)
 	var sigOrder []string
 	for _, rec := range recs {
@@ -1186,6 +1228,10 @@ func main() {
 		outcomes.Add(rec.Kind + "/" + rec.Prog + " " + strings.Join(rec.Outcomes, " "))
 		if rec.Ms > maxMs {
 			maxMs = rec.Ms
+			slowest = fmt.Sprintf("%s/%s %s op_ms=%v", rec.Kind, rec.Prog, strings.Join(rec.Ops, " "), rec.OpMs)
+		}
+		if rec.Ms > 5000 {
+			nSlow++
 		}
 		for _, v := range sigsOf(rec) {
 			if _, ok := cands[v.Sig]; !ok {
@@ -1264,7 +1310,7 @@ func main() {
 	}
 
 	// ---- samples: a few histories written out
-	for _, want := range []string{"local/s2 R X0 S0", "local/sh R X0 H0 S0", "vsys/s2 R K0 S0", "vsys/s2 R K0 P0 S0", "vsys/sh R X0 K1 H0", "local/s1 R R X0 P1", "vsys/s3 R A0 Q0", "vsys/s3 R Q0 X0 U0", "vsys/s2 R J0 K0 C0"} {
+	for _, want := range []string{"local/s2 R X0 S0", "local/sh R X0 H0 S0", "vsys/s2 R K0 S0", "vsys/s2 R K0 P0 S0", "vsys/sh R X0 K1 H0", "local/s1 R R X0 P1", "vsys/s3 R A0 Q0", "vsys/s3 R Q0 X0 U0", "vsys/s2 R O0 P0"} {
 		for _, rec := range recs {
 			if rec != nil && rec.Kind+"/"+rec.Prog+" "+strings.Join(rec.Ops, " ") == want {
 				r.Sample(map[string]interface{}{"executor": rec.Kind, "program": rec.Prog, "history": strings.Join(rec.Ops, " "),
@@ -1275,7 +1321,7 @@ func main() {
 	}
 
 	depthTable := map[string]int{}
-	for _, space := range []string{"A", "B", "C"} {
+	for _, space := range []string{"A", "B", "C", "D"} {
 		for _, kind := range []string{"local", "vsys"} {
 			for _, prog := range progs {
 				depthTable[space+"/"+kind+"/"+prog] = depthOf(space, kind, prog)
@@ -1284,7 +1330,7 @@ func main() {
 	}
 	layerH := map[string]interface{}{
 		"depth":                     depthTable,
-		"alphabet":                  "space A: R | S<i> P<i> H<i> X<i> for i in live results (max 2) | K0 K1 (cluster only).  space B: R then {D0 A0 B0 Q0 U0 X0 | K0 (cluster only)}* with at least one direct redistribution; D=Reduce, A=Reshard(r,2), B=Reshard(r,3), Q=Repartition(r, k mod n), U=Repartition(r, (2k+1) mod n), each applied DIRECTLY to the result.  space C: R then {J0 C0 Q0 X0 | K0 (cluster only)}* with at least one J0/C0; J=Cogroup(Reshard(r,2),Repartition(r,(2k+1) mod n)), C=Cogroup(Reduce(r,+), r), rows folded to (k, counts and sums of both groups)",
+		"alphabet":                  "space A: R | S<i> P<i> H<i> X<i> for i in live results (max 2) | K0 K1 (cluster only).  space B: R then {D0 A0 B0 Q0 U0 X0 | K0 (cluster only)}* with at least one direct redistribution; D=Reduce, A=Reshard(r,2), B=Reshard(r,3), Q=Repartition(r, k mod n), U=Repartition(r, (2k+1) mod n), each applied DIRECTLY to the result.  space C: R then {J0 C0 Q0 X0 | K0 (cluster only)}* with at least one J0/C0; J=Cogroup(Reshard(r,2),Repartition(r,(2k+1) mod n)), C=Cogroup(Reduce(r,+), r), rows folded to (k, counts and sums of both groups).  space D: R, one of D0 A0 B0 O0 Q0 U0 J0 C0 (O=Reshard(r,1)), then {P0 H0 X0 O0 | K0 (cluster only)}* with at least one P0/H0",
 		"programs":                  "s1/s2/s3: Const(1/2/3 shards, 5 rows)->Map; sh: Const(2)->Map->Reduce (result out of a shuffle)",
 		"histories_enumerated":      len(jobs),
 		"histories_executed":        executed,
@@ -1296,10 +1342,12 @@ func main() {
 		"op_outcome_counts":         opOutcomes, // executor, op kind [what happened to the operand before] : outcome
 		"mechanism_counts":          mech,
 		"slowest_history_ms":        maxMs,
+		"slowest_history":           slowest,
+		"histories_over_5s":         nSlow,
 		"signatures_first_pass":     len(sigOrder),
 		"signatures_not_confirmed":  unconfirmed,
 		"unconfirmed":               unconfDetail,
-		"rule":                      "three spaces of histories, each history replayed in a fresh session (state de-duplication is used for counting only). Space A = all histories over the general alphabet (no direct redistribution) up to the depth in the depth table; space B = all histories R·w, w over five DIFFERENT direct redistributions of r0 plus Discard and (cluster) Kill, containing at least one direct redistribution, up to the depth in the table, so that every ordered pair of direct re-shuffles of one result occurs, also with a Discard or Kill in between; space C = all histories R·w, w over {J0 C0 Q0 X0, K0 on the cluster} containing at least one J0 or C0, where J/C are ONE Func that sends the result into TWO shuffles (J: Cogroup(Reshard(r,2), Repartition(r,(2k+1) mod n)); C: Cogroup(Reduce(r,+), r)), same depths as space B. To keep the cluster part affordable (about 0.5 CPU-seconds per history) space A is one level less deep on the cluster for all programs (quick) / for s3 and sh (thorough), and space B one level less deep for sh (quick) / s1 and sh (thorough); direct redistributions are not mixed with P/H/second results. Cluster: verifsystem, 2 procs/machine, Parallelism(4), fast retries, keepalive 20/200/100 ms, DoShuffleReaders=false; an error/hang signature is reported only when one of its simplest histories reproduces it 3 of 3 times, a wrong-rows signature on its first occurrence (re-executed, reproduction count recorded)",
+		"rule":                      "four spaces of histories, each history replayed in a fresh session (state de-duplication is used for counting only). Space A = all histories over the general alphabet (no direct redistribution) up to the depth in the depth table; space B = all histories R·w, w over five DIFFERENT direct redistributions of r0 plus Discard and (cluster) Kill, containing at least one direct redistribution, up to the depth in the table, so that every ordered pair of direct re-shuffles of one result occurs, also with a Discard or Kill in between; space C = all histories R·w, w over {J0 C0 Q0 X0, K0 on the cluster} containing at least one J0 or C0, where J/C are ONE Func that sends the result into TWO shuffles (J: Cogroup(Reshard(r,2), Repartition(r,(2k+1) mod n)); C: Cogroup(Reduce(r,+), r)), same depths as space B; space D = all histories R·d·w, d one of the eight direct ops D A B O Q U J C (O = Reshard(r,1), a ONE-shard consumer; Q/U on program s1 are 1-shard Repartitions), w over {P0 H0 X0 O0, K0 on the cluster} containing at least one P0 or H0, same depths as space B (every direct op followed by the pipelined and the shuffling consumer, with and without Discard/Kill/1-shard Reshard in between). To keep the cluster part affordable (about 0.5 CPU-seconds per history) space A is one level less deep on the cluster for all programs (quick) / for s3 and sh (thorough), and spaces B, C, D one level less deep for the 1-shard program s1 and for sh (both tiers); direct redistributions are not mixed with P/H/second results. Cluster: verifsystem, 2 procs/machine, Parallelism(4), fast retries, keepalive 20/200/100 ms, DoShuffleReaders=false; an error/hang signature is reported only when one of its simplest histories reproduces it 3 of 3 times, a wrong-rows signature on its first occurrence (re-executed, reproduction count recorded)",
 	}
 
 	// ---- layer S
